@@ -286,6 +286,36 @@ fn build_order_independence(ctx: &Ctx, st: &mut Stats) {
     }
 }
 
+/// Caches keyed by too little: the same test cases are built with one setting toggled and then with the
+/// settings under test, back to back on the same thread; the second result must equal the one obtained on
+/// a fresh thread that never saw the neighbouring settings.
+fn neighbouring_settings_case(st: &mut Stats, tcs: &[String], s: Settings, flag: u32) {
+    st.evaluations += 1;
+    let fresh = std::thread::scope(|sc| {
+        sc.spawn(|| {
+            install_quiet_panic_hook();
+            build(tcs, s)
+        })
+        .join()
+        .unwrap_or_else(|_| Err("thread".into()))
+    });
+    let neighbour = Settings { flags: s.flags ^ flag, ..s }.normalised();
+    let _ = build(tcs, neighbour);
+    let after = build(tcs, s);
+    st.decided += 1;
+    st.count("neighbouring_settings_pairs");
+    if fresh != after {
+        let mut case = case_json(tcs, s);
+        case["what"] = json!("neighbouring_settings");
+        case["built_just_before"] = neighbour.to_json();
+        st.violation(
+            "depends_on_earlier_builds_on_the_thread",
+            format!("after building the same test cases with {:?}, build() gives {:?}; on a fresh thread it gives {:?}", neighbour.names(), after, fresh),
+            case,
+        );
+    }
+}
+
 fn cross_process(ctx: &Ctx, st: &mut Stats) {
     let exe = std::env::current_exe().unwrap();
     let n = if ctx.thorough { 40_000 } else { 2_500 };
@@ -400,6 +430,25 @@ pub fn run(ctx: &Ctx) -> i32 {
         rebuild_case(st, &tcs, s, 3, &mut rng);
     });
     if std::env::var("VERIF_TIMING").is_ok() { eprintln!("[timing] c10.rs block 4: {:.1}s", ctx.run.started.elapsed().as_secs_f64()); }
+    // neighbouring settings back to back on one thread (every flag toggled) over fold-orbit, class and plain alphabets
+    {
+        let n = if ctx.thorough { 60_000 } else { 3_000 };
+        let als: Vec<Vec<String>> = ["sigma_lower", "sigma", "classes", "ab", "mixed", "sigma_lower", "astral"].iter().map(|a| gen::alphabet(a)).collect();
+        par_for(&ctx.run, n, |i, st| {
+            let mut rng = Rng::new(seed, 0x107_0000 + i as u64);
+            let tcs = gen::family(&mut rng, &als[i % als.len()]);
+            let tcs: Vec<String> = tcs.into_iter().map(|t| t.chars().take(8).collect()).collect();
+            let mut s = gen::settings(&mut rng, ALL_FLAGS & !SURR);
+            if i % 2 == 0 {
+                s.flags |= NOEND;
+            }
+            let flag = 1u32 << rng.below(15);
+            if flag == SURR {
+                return;
+            }
+            neighbouring_settings_case(st, &tcs, s.normalised(), flag);
+        });
+    }
     // exhaustive small sets with repetition conversion: all permutations of up to 4 words
     let words: Vec<String> = gen::words(&["a", "b"], 3).into_iter().filter(|w| !w.is_empty()).collect();
     let subs = gen::subsets(words.len(), 3);
